@@ -47,6 +47,7 @@ pub struct SchedReq {
     pub rel: Option<u64>,
     pub abs: Option<T>,
     pub via_action: bool,
+    pub salt: u32,
     pub call: u64,
     pub ret: Option<u64>,
     pub res: Option<Res>,
@@ -189,7 +190,7 @@ impl Hist {
                         h.sends[ix].replies = replies.clone();
                     }
                 }
-                Ev::SchedCall { actor, sid, target, kind, mode, rel, abs, via_action, .. } => {
+                Ev::SchedCall { actor, sid, target, kind, mode, rel, abs, via_action, salt, .. } => {
                     let in_handler = match actor {
                         Actor::Node(n) => open.get(n).copied(),
                         _ => None,
@@ -203,6 +204,7 @@ impl Hist {
                         rel: *rel,
                         abs: *abs,
                         via_action: *via_action,
+                        salt: *salt,
                         call: seq,
                         ret: None,
                         res: None,
